@@ -135,7 +135,12 @@ class Gen:
     def cond(self, vars_, depth=1):
         r = self.r
         k = r.random()
-        cmp_ = f"{self.expr(vars_, depth, False)} {r.choice(['<', '>', '<=', '>=', '==', '!='])} {self.expr(vars_, depth, False)}"
+        left = self.expr(vars_, depth, False)
+        if not any(c.isalpha() for c in left.replace("abs", "").replace("floor", "").replace("ceil", "").replace("max", "").replace("min", "")):
+            # a compile-time constant test prunes a branch (and the returns in it); keep tests run-time
+            # (constant tests are covered by known finding C01-if-not-constant and by C03)
+            left = f"({left} + {self.read()})"
+        cmp_ = f"{left} {r.choice(['<', '>', '<=', '>=', '==', '!='])} {self.expr(vars_, depth, False)}"
         if k < 0.8 or depth <= 0:
             return cmp_
         self.features.add("boolop")
